@@ -280,10 +280,34 @@ func atomBounds(a *Term) (int64, int64, bool) {
 
 // boundsOf: signed bounds of a 64-bit term such that the wrapped value equals the mathematical value
 // of its linear form (no overflow anywhere in [-2^62, 2^62]).
+type boundsEntry struct {
+	lo, hi int64
+	ok     bool
+}
+
+var boundsMemo = map[*Term]boundsEntry{}
+var ubMemo = map[*Term]boundsEntry{}
+
 func boundsOf(t *Term) (int64, int64, bool) {
 	if t.W != 64 {
 		return 0, 0, false
 	}
+	if t.Op == "const" {
+		return int64(t.Val), int64(t.Val), true
+	}
+	if e, ok := boundsMemo[t]; ok {
+		return e.lo, e.hi, e.ok
+	}
+	lo, hi, ok := boundsOfRaw(t)
+	if ok || t.Op == "ite" {
+		// negative results are only cached for ite terms (their atoms' bounds are registered before they are built);
+		// a variable may get its bound registered later
+		boundsMemo[t] = boundsEntry{lo, hi, ok}
+	}
+	return lo, hi, ok
+}
+
+func boundsOfRaw(t *Term) (int64, int64, bool) {
 	if t.Op == "ite" && t.lin == nil {
 		return atomBounds(t)
 	}
@@ -311,6 +335,20 @@ func boundsOf(t *Term) (int64, int64, bool) {
 
 // unsigned upper bound, if cheaply known
 func ubOf(t *Term) (uint64, bool) {
+	if t.Op == "const" {
+		return t.Val, true
+	}
+	if e, ok := ubMemo[t]; ok {
+		return uint64(e.hi), e.ok
+	}
+	u, ok := ubOfRaw(t)
+	if ok {
+		ubMemo[t] = boundsEntry{0, int64(u), ok}
+	}
+	return u, ok
+}
+
+func ubOfRaw(t *Term) (uint64, bool) {
 	switch t.Op {
 	case "const":
 		return t.Val, true
